@@ -7,10 +7,10 @@ import "fmt"
 type NodeKind int
 
 const (
-	NLit NodeKind = iota
-	NVar           // resolved variable read
-	NField         // field read (identifier that is no variable, inside a block)
-	NUnary         // - +
+	NLit   NodeKind = iota
+	NVar            // resolved variable read
+	NField          // field read (identifier that is no variable, inside a block)
+	NUnary          // - +
 	NNot
 	NBinary // arithmetic / comparison
 	NAnd
